@@ -332,52 +332,68 @@ def Payload.raw : Payload → Raw
 
 def Backup.serves (b : Backup) : Bool := b.node.isOn && b.ftps == .running
 
-/-- `backup_database`. `pathReq`: server → backup-host direction open (both NICs up, not blocked). `big`: no link on the
-way refuses the STOR frame that carries the file for lack of capacity. -/
+/-! #### the two FTP transfers (`FTPClient.send_file` / `FTPClient.request_file` as far as the database service uses them)
+
+`pathReq`: server → backup-host direction open (both NICs up, not blocked). `big`: no link on the way refuses the STOR frame
+that carries the file for lack of capacity. `pathResp`: backup-host → server direction open (for the STOR frame that carries
+the file: and no link further down refuses it). `sendOk`: the backup host's own link takes that frame (otherwise the FTP
+server's `send` fails and RETR is answered not-OK). -/
+
+/-- `ftp_client.send_file('database/database.db' -> '<uuid>/database.db')` -/
+def ftpSendFile (s : Server) (b : Backup) (pathReq big : Bool) : Server × Backup × Bool :=
+  match s.file with
+  | none => (s, b, false)
+  | some fh =>
+    -- `_connect_to_server` needs the FTP client to be able to act; so does `_send_data` (through `IOSoftware.send`)
+    let portOk := s.ftpcAct && pathReq && b.serves
+    let s1 := { s with ftpConn := s.ftpConn || portOk }
+    if !s1.ftpConn then (s1, b, false)
+    else if !portOk then (s1, b, false)
+    else if !big then (s1, b, false)
+    else match b.stored with
+      | some _ => (s1, b, false)          -- `create_file` raises on the existing name; `_store_data` answers False
+      | none => (s1, { b with stored := some fh }, true)
+
+/-- `ftp_client.request_file('<uuid>/database.db' -> 'downloads/database.db')`: RETR goes straight to the session manager (it
+is sent whether or not the FTP client can act) and is reported OK as soon as the backup host has SENT the file; the
+incoming STOR is stored under downloads/ only if it arrives, the FTP client can act, and no file of that name is already
+there (`create_file` raises on an existing name, swallowed by `_store_data`). -/
+def ftpRequestFile (s : Server) (b : Backup) (pathReq pathResp sendOk : Bool) : Server × Bool :=
+  let portOk := s.ftpcAct && pathReq && b.serves
+  let s1 := { s with ftpConn := s.ftpConn || portOk }
+  if !s1.ftpConn then (s1, false)
+  else if !(pathReq && b.serves) then (s1, false)
+  else match b.stored with
+    | none => (s1, false)
+    | some bh =>
+      if !sendOk then (s1, false)
+      else if pathResp && s1.ftpcAct then
+        match s1.downloads with
+        | some _ => (s1, true)
+        | none => ({ s1 with downloads := some bh, dlFolder := true }, true)
+      else (s1, true)
+
+/-- `backup_database`: the guards, then the transfer. -/
 def backupDatabase (s : Server) (b : Backup) (pathReq : Bool) (big : Bool := true) : Server × Backup × Bool :=
   if !s.canAct then (s, b, false)
   else if !s.backupConfigured then (s, b, false)
   else if s.ftpc.isNone then (s, b, false)
-  else match s.file with
-    | none => (s, b, false)
-    | some fh =>
-      -- `_connect_to_server` needs the FTP client to be able to act; so does `_send_data` (through `IOSoftware.send`)
-      let portOk := s.ftpcAct && pathReq && b.serves
-      let s1 := { s with ftpConn := s.ftpConn || portOk }
-      if !s1.ftpConn then (s1, b, false)
-      else if !portOk then (s1, b, false)
-      else if !big then (s1, b, false)
-      else match b.stored with
-        | some _ => (s1, b, false)          -- `create_file` raises on the existing name; `_store_data` answers False
-        | none => (s1, { b with stored := some fh }, true)
+  else if s.file.isNone then (s, b, false)
+  else ftpSendFile s b pathReq big
 
-/-- `restore_backup` (as repaired, F-C17-2). `pathResp`: backup-host → server direction open (for the STOR frame that carries the
-file: and no link further down refuses it). `sendOk`: the backup host's own link takes that frame (otherwise the FTP
-server's `send` fails and RETR is answered not-OK).  A leftover `downloads/database.db` is removed before the backup is
-requested, so what is copied into place is what arrived in THIS call. -/
+/-- `restore_backup` (as repaired, F-C17-2): the guards; a leftover `downloads/database.db` is removed BEFORE the backup is
+requested, so what is copied into place is what arrived in THIS call; the transfer; the (F-33) check that a file is present
+under downloads/ before the live file is deleted and the download copied over it. -/
 def restoreBackup (s : Server) (b : Backup) (pathReq pathResp : Bool) (sendOk : Bool := true) : Server × Bool :=
   if !s.canAct then (s, false)
   else if !s.backupConfigured then (s, false)
   else if s.ftpc.isNone then (s, false)
   else
-    -- `delete_file('downloads', 'database.db')` when a copy is lying there
-    let s0 := { s with downloads := none }
-    let portOk := s0.ftpcAct && pathReq && b.serves
-    let s1 := { s0 with ftpConn := s0.ftpConn || portOk }
-    if !s1.ftpConn then (s1, false)
-    -- RETR goes straight to the session manager: it is sent whether or not the FTP client can act
-    else if !(pathReq && b.serves) then (s1, false)
-    else match b.stored with
-      | none => (s1, false)
-      | some bh =>
-        if !sendOk then (s1, false)
-        else
-        -- the server answers RETR with a STOR; it is stored under downloads/ by the FTP client, if it arrives and the
-        -- client can act. RETR is reported OK whether or not the STOR arrived; the code then checks that the file is
-        -- present under downloads/ before it deletes the live file and copies the download over it (F-33 repair)
-        if pathResp && s1.ftpcAct then
-          ({ s1 with downloads := some bh, dlFolder := true, file := some bh, folder := true, health := .good }, true)
-        else (s1, false)
+    let r := ftpRequestFile { s with downloads := none } b pathReq pathResp sendOk
+    if !r.2 then (r.1, false)
+    else match r.1.downloads with
+      | none => (r.1, false)
+      | some d => ({ r.1 with file := some d, folder := true, health := .good }, true)
 
 /-! ### requests on the database service (validators of service.py, then the method) -/
 
